@@ -431,8 +431,9 @@ def chain_history(rng, hid, n=40, params=None, stride=None):
         rel = False
         ts = None if rng.random() < 0.6 else ts
     # r1 := a bounded start value
+    base0 = [rng.randint(-2, 2) for _ in ints]
     for v in ints:
-        steps.append({"op": "stmt", "r": 1, "s": {"op": "assign", "x": v, "e": {"k": rng.randint(-2, 2), "t": []}}})
+        steps.append({"op": "stmt", "r": 1, "s": {"op": "assign", "x": v, "e": {"k": base0[v - 1], "t": []}}})
     alternate = rng.random() < 0.4 and not stride
     if alternate:
         # only ONE bound is relaxed per step, alternately for two variables tied by a stable |a-b| <= 1
@@ -467,11 +468,21 @@ def chain_history(rng, hid, n=40, params=None, stride=None):
         if params:
             h["params"] = params
         return h
-    for i in range(1, n + 1):
+    first = 1
+    if stride:
+        # like an engine with a widening delay: the first values are JOINED, so that the left operand of the first
+        # widening already holds several separate values per variable
+        for i0 in (1, 2):
+            steps.append({"op": "top", "r": 2, "inplace": 0})
+            for v in ints:
+                steps.append({"op": "stmt", "r": 2, "s": {"op": "assign", "x": v, "e": {"k": base0[v - 1] + sign[v - 1] * grow[v - 1] * i0, "t": []}}})
+            steps.append({"op": "join", "r": 1, "a": 1, "b": 2, "inplace": 1})
+        first = 3
+    for i in range(first, n + 1):
         steps.append({"op": "top", "r": 2, "inplace": 0})
         for v in ints:
             if stride or rng.random() < 0.8:
-                c = sign[v - 1] * grow[v - 1] * i + (0 if stride else rng.randint(-1, 1))
+                c = sign[v - 1] * grow[v - 1] * i + (base0[v - 1] if stride else rng.randint(-1, 1))
                 kind = 0.0 if stride else rng.random()
                 if kind < 0.5:
                     steps.append({"op": "stmt", "r": 2, "s": {"op": "assign", "x": v, "e": {"k": c, "t": []}}})
